@@ -630,6 +630,23 @@ func (e *env) call(x *spec.Call) sval {
 			}
 		}
 		return e.fail("bytes() of %s", x.Args[0])
+	case "elems", "off":
+		// elems(s): the contents of the backing array of slice s in the current heap, as a mathematical array (a snapshot
+		// that heap-free recursive spec functions can take as an argument); off(s): the offset of s[0] in it
+		v := e.tr(x.Args[0])
+		if v.sort != "Slice" || v.gt == nil {
+			return e.fail("%s() needs a typed slice: %s", name, x)
+		}
+		if name == "off" {
+			return sval{t: fmt.Sprintf("(soff %s)", v.t), sort: "Int", gt: types.Typ[types.Int]}
+		}
+		sl, ok := types.Unalias(v.gt).Underlying().(*types.Slice)
+		if !ok || e.st == nil {
+			return e.fail("elems() needs a slice and a heap: %s", x)
+		}
+		es := c.S.SortOf(sl.Elem())
+		h := c.region(e.st, c.elemKey(sl.Elem()), c.elemSort(es))
+		return sval{t: fmt.Sprintf("(select %s (sbase %s))", h, v.t), sort: "(Array Int " + es + ")"}
 	case "seen":
 		// seen(m, k): the running `range m` loop has already produced key k
 		m, k := e.tr(x.Args[0]), e.tr(x.Args[1])
